@@ -41,6 +41,64 @@ def crafted():
                 for t_off in (Fraction(1, 2), 1, Fraction(7, 2), 4, Fraction(9, 2), 6):
                     out.append((pr, [(Fraction(0), w, (), Fraction(4)), (Fraction(t_off), off, (), None)]))
                     out.append((pr, [(Fraction(1), w, (), Fraction(4)), (Fraction(0), off, (), None), (Fraction(t_off), on, (), None)]))
+    out += crafted_simultaneous()
+    return out
+
+
+def crafted_simultaneous():
+    """two happenings of different actions at exactly the same time that depend on each other (each deletes what the other needs up to and
+    including that instant), where the two actions have DIFFERENT earliest times (release by timed effects): the STN must keep the two
+    happenings together, an order alone lets the earliest schedule pull them apart"""
+    from unified_planning.shortcuts import (Problem, Fluent, BoolType, DurativeAction, InstantaneousAction, StartTiming, EndTiming, GlobalStartTiming,
+                                            ClosedTimeInterval, TimePointInterval, Not)
+    out = []
+    for (da, db) in ((1, 2), (2, 2), (1, 3)):
+        for (ra, rb) in ((Fraction(5), Fraction(9, 2)), (Fraction(3), Fraction(1)), (Fraction(0), Fraction(4))):
+            for slack in (Fraction(0), Fraction(1, 2)):
+                pr = Problem(f"ends_meet_{da}_{db}_{ra}_{rb}_{slack}")
+                x, y, ka, kb = (Fluent(n, BoolType()) for n in ("x", "y", "ka", "kb"))
+                pr.add_fluent(x, default_initial_value=True)
+                pr.add_fluent(y, default_initial_value=True)
+                pr.add_fluent(ka, default_initial_value=False)
+                pr.add_fluent(kb, default_initial_value=False)
+                pr.add_timed_effect(GlobalStartTiming(ra), ka, True)
+                pr.add_timed_effect(GlobalStartTiming(rb), kb, True)
+                a = DurativeAction("a")
+                a.set_fixed_duration(da)
+                a.add_condition(ClosedTimeInterval(StartTiming(), EndTiming()), y)
+                a.add_condition(TimePointInterval(StartTiming()), ka)
+                a.add_effect(EndTiming(), x, False)
+                b = DurativeAction("b")
+                b.set_fixed_duration(db)
+                b.add_condition(ClosedTimeInterval(StartTiming(), EndTiming()), x)
+                b.add_condition(TimePointInterval(StartTiming()), kb)
+                b.add_effect(EndTiming(), y, False)
+                pr.add_action(a)
+                pr.add_action(b)
+                pr.add_goal(Not(x))
+                pr.add_goal(Not(y))
+                end = max(ra + da, rb + db) + 1 + slack
+                out.append((pr, [(end - da, a, (), Fraction(da)), (end - db, b, (), Fraction(db))]))
+    for r in (Fraction(1), Fraction(3, 2)):
+        for t in (Fraction(2), Fraction(5, 2)):
+            pr = Problem(f"together_{r}_{t}")
+            p, q, k = (Fluent(n, BoolType()) for n in ("p", "q", "k"))
+            pr.add_fluent(p, default_initial_value=True)
+            pr.add_fluent(q, default_initial_value=True)
+            pr.add_fluent(k, default_initial_value=False)
+            pr.add_timed_effect(GlobalStartTiming(r), k, True)
+            ia = InstantaneousAction("ia")
+            ia.add_precondition(p)
+            ia.add_effect(q, False)
+            ib = InstantaneousAction("ib")
+            ib.add_precondition(q)
+            ib.add_precondition(k)
+            ib.add_effect(p, False)
+            pr.add_action(ia)
+            pr.add_action(ib)
+            pr.add_goal(Not(p))
+            pr.add_goal(Not(q))
+            out.append((pr, [(t, ia, (), None), (t, ib, (), None)]))
     return out
 
 
